@@ -275,6 +275,14 @@ impl<'a> StaticCtx<'a> {
             for fd in all_fields {
                 self.check_type(&fd.ty, module, &item.generics, &mut used)
                     .map_err(|e| format!("{at}: {e}"))?;
+                // `#[codec(compact)] f: Box<X>` needs `Compact<Box<X>>: Encode + Decode`, which does not exist
+                if fd.compact {
+                    if let syn::Type::Path(tp) = &fd.ty {
+                        if path_string(&tp.path) == format!("{}::boxed::Box", self.alloc) {
+                            return Err(format!("{at}: #[codec(compact)] on a boxed field (Compact<Box<_>> is not a codec type)"));
+                        }
+                    }
+                }
             }
             for g in &item.generics {
                 if !used.contains(g) {
@@ -282,7 +290,77 @@ impl<'a> StaticCtx<'a> {
                 }
             }
         }
+        self.check_constrained()?;
         self.check_cycles()
+    }
+
+    /// rustc rejects a type parameter that is only used recursively (through arguments of the
+    /// generated items themselves): "type parameter `T` is only used recursively". Least fixpoint
+    /// of "parameter j of item Y is constrained by some field".
+    fn check_constrained(&self) -> Result<(), String> {
+        use std::collections::BTreeSet as Set;
+        let mut constrained: Set<(Vec<String>, usize)> = Set::new();
+        // does `t` constrain the parameter `g`, given the currently known constrained positions?
+        fn constrains(t: &syn::Type, g: &str, root: &str, gm: &GMod, known: &Set<(Vec<String>, usize)>) -> bool {
+            use syn::Type as T;
+            match t {
+                T::Paren(p) => constrains(&p.elem, g, root, gm, known),
+                T::Group(p) => constrains(&p.elem, g, root, gm, known),
+                T::Tuple(tt) => tt.elems.iter().any(|e| constrains(e, g, root, gm, known)),
+                T::Array(a) => constrains(&a.elem, g, root, gm, known),
+                T::Path(tp) => {
+                    let idents = path_idents(&tp.path);
+                    let args = last_args(&tp.path).unwrap_or_default();
+                    if tp.path.leading_colon.is_none() && idents.len() == 1 && args.is_empty() {
+                        return idents[0] == g;
+                    }
+                    let is_item = tp.path.leading_colon.is_none()
+                        && idents.first().map(|s| s == root).unwrap_or(false)
+                        && gm.items.contains_key(&idents);
+                    args.iter().enumerate().any(|(j, a)| {
+                        if is_item && !known.contains(&(idents.clone(), j)) {
+                            false
+                        } else {
+                            constrains(a, g, root, gm, known)
+                        }
+                    })
+                }
+                _ => false,
+            }
+        }
+        loop {
+            let mut changed = false;
+            for (path, item) in &self.gm.items {
+                for (j, g) in item.generics.iter().enumerate() {
+                    if constrained.contains(&(path.clone(), j)) {
+                        continue;
+                    }
+                    let mut fields: Vec<&GField> = vec![];
+                    match &item.kind {
+                        GKind::Struct(f) => fields.extend(f.list()),
+                        GKind::Enum(vs) => vs.iter().for_each(|v| fields.extend(v.fields.list())),
+                    }
+                    if fields.iter().any(|f| constrains(&f.ty, g, &self.gm.root, self.gm, &constrained)) {
+                        constrained.insert((path.clone(), j));
+                        changed = true;
+                    }
+                }
+            }
+            if !changed {
+                break;
+            }
+        }
+        for (path, item) in &self.gm.items {
+            for (j, g) in item.generics.iter().enumerate() {
+                if !constrained.contains(&(path.clone(), j)) {
+                    return Err(format!(
+                        "{}: generic parameter {g} is only used recursively (rustc: \"type parameter is only used recursively\")",
+                        path.join("::")
+                    ));
+                }
+            }
+        }
+        Ok(())
     }
 
     // -----------------------------------------------------------------------------------------
